@@ -13,3 +13,145 @@ META = {
 
 def TASKS(tier):
     return end_tasks(tier, 'end_routing', ('routing',))
+
+
+# ------------------------------------------------------------------------------------ which strategy a builder asks for
+
+class RecStream(PyObj):
+    """stands for `Stream<Op>` inside the builder functions that open a new block: records the NextStrategy handed to
+    split_block / binary_connection"""
+    name = 'Stream'
+    any_type = True
+
+    def __init__(self, log=None, tag='self'):
+        self.log = log if log is not None else []
+        self.tag = tag
+
+    def trait_call(self, ex, trait, method, args):
+        if method == 'split_block':
+            self.log.append(('split_block', self.tag, [args[2]]))
+            return RecStream(self.log, 'new')
+        if method == 'binary_connection':
+            self.log.append(('binary_connection', self.tag, [args[3], args[4]], args[1]))
+            return RecStream(self.log, 'new')
+        if method in ('add_operator',):
+            return RecStream(self.log, self.tag)
+        if trait == 'Clone':
+            return self
+        return NotImplemented
+
+
+WIRING = {
+    # builder: (type, method, what the property promises)
+    'shuffle': ('Stream', 'shuffle', ['Random']),
+    'broadcast': ('Stream', 'broadcast', ['All']),
+    'group_by': ('Stream', 'group_by', ['GroupBy']),
+    'ship_hash': ('JoinStreamShipHash', 'new', ['GroupBy', 'GroupBy']),
+    'ship_broadcast_right': ('JoinStreamShipBroadcastRight', 'new', ['OnlyOne', 'All']),
+}
+
+
+def _native_wiring(ex, builder):
+    """public-API replay (kind `pipe_wiring`): the real builder in a job with 3 replicas per block on a fixed data set;
+    the observable consequence of the connection kind is compared with its meaning"""
+    from mirsym.executor import RustPanic
+    L = [(0, 10), (1, 11), (2, 12), (0, 13), (1, 14), (5, 15), (7, 16)]
+    R = [(0, 20), (0, 21), (2, 22), (7, 23), (9, 24)]
+    par = 3
+    code = ['shuffle', 'broadcast', 'group_by', 'ship_hash', 'ship_broadcast_right'].index(builder)
+    args = [par, code, len(L)] + [x for kv in L for x in kv] + [len(R)] + [x for kv in R for x in kv]
+    runner, prof = ex.env['native']
+    ex.env['native_used'] = True
+    txt = runner('pipe_wiring', args)[prof]
+    ex.env['native_out'] = txt
+    if txt == 'PANIC':
+        raise RustPanic('the real %s job panicked' % builder)
+    if txt.startswith(('BADARGS', 'UNKNOWN', 'NORESULT', 'NOOUTPUT')):
+        raise Unsupported('native driver: ' + txt)
+    if txt.startswith('TIMEOUT'):
+        raise Violation('the real %s job does not terminate' % builder, hlib._wit(ex))
+    if builder == 'shuffle':
+        want = sorted('%d:%d' % kv for kv in L)
+    elif builder == 'broadcast':
+        want = sorted('%d:%d' % kv for kv in L for _ in range(par))
+    elif builder == 'group_by':
+        want = sorted('%d:%d' % (k, sum(1 for kk, _ in L if kk == k)) for k in set(k for k, _ in L))
+    else:
+        want = []
+        for k, lv in L:
+            ms = [rv for rk, rv in R if rk == k]
+            want += ['%d:%d-%d' % (k, lv, rv) for rv in ms] or ['%d:%d-_' % (k, lv)]
+        want = sorted(want)
+    got = sorted(t for t in txt.split() if t != '-')
+    if got != want:
+        raise Violation('%s: the real job (3 replicas) delivers %s, the connection kind promises %s' % (builder, got, want),
+                        hlib._wit(ex))
+    return {'native': txt}
+
+
+def wiring_harness(w, builder):
+    ty, meth, want = WIRING[builder]
+    fns = w.impls[(None, ty)][meth]
+    fn = [f for f in fns if 'Keyed' not in f.header.split('(')[0]][0] if len(fns) > 1 else fns[0]
+    index = w.impls[(None, 'NextStrategy')]['index'][0]
+    hfn = w.prog.find_function('group_by_hash') if hasattr(w.prog, 'find_function') else None
+
+    def h(ex):
+        ex.env['generics'] = {'Key': 'u64', 'K': 'u64'}
+        if ex.env.get('native'):
+            return _native_wiring(ex, builder)
+        log = []
+        lhs = RecStream(log, 'lhs')
+        if ty == 'Stream':
+            args = [lhs] + ([KeyOf()] if builder == 'group_by' else [])
+        else:
+            prev = hlib.mk_struct(w, 'JoinStream', lhs=lhs, rhs=RecStream(log, 'rhs'), keyer1=KeyOf(), keyer2=KeyOf(),
+                                  _key=Opaque('PhantomData'))
+            args = [prev]
+        ex.call_function(fn, args)
+        calls = [c for c in log if c[0] in ('split_block', 'binary_connection')]
+        if len(calls) != 1:
+            raise Violation('%s::%s opens %d connections, expected one' % (ty, meth, len(calls)), hlib._wit(ex))
+        c = calls[0]
+        if c[1] != 'lhs':
+            raise Violation('%s::%s connects from the wrong stream (%s)' % (ty, meth, c[1]), hlib._wit(ex))
+        if c[0] == 'binary_connection' and not (isinstance(c[3], RecStream) and c[3].tag == 'rhs'):
+            raise Violation('%s::%s does not connect the right-hand stream as second input' % (ty, meth), hlib._wit(ex))
+        got = [s.variant for s in c[2]]
+        sx = {'builder': builder, 'strategies': got}
+        if got != want:
+            raise Violation('%s::%s asks for connection kind %s, the property promises %s' % (ty, meth, got, want),
+                            hlib._wit(ex), sx)
+        # group-by connections: the replica index is the hash of the user's key, for both inputs of a join
+        idx = []
+        for j, s in enumerate(c[2]):
+            if s.variant != 'GroupBy':
+                continue
+            key = ex.fresh_int('u64', 'key') if not idx else idx[0][1]
+            item = Agg('tuple', None, [deep_copy(key), ex.fresh_int('u64', 'payload%d' % j)])
+            i = ex.call_function(index, [Ref([s], 0), Ref([item], 0)])
+            idx.append((i, key))
+        for i, _ in idx[1:]:
+            check(ex, i.z() == idx[0][0].z(), 'the two inputs of the join are routed by different functions of the key: equal '
+                                            'keys do not meet on one replica', lambda: sx)
+        if idx:
+            # depends on the key only: a second element with the same key and another payload gets the same index
+            s = [s for s in c[2] if s.variant == 'GroupBy'][0]
+            item2 = Agg('tuple', None, [deep_copy(idx[0][1]), ex.fresh_int('u64', 'other_payload')])
+            i2 = ex.call_function(index, [Ref([s], 0), Ref([item2], 0)])
+            check(ex, i2.z() == idx[0][0].z(), 'group-by routing depends on more than the key', lambda: sx)
+        hlib.cover(ex, 'end')
+        return sx
+    return h
+
+
+_end_tasks = TASKS
+
+
+def TASKS(tier):     # noqa: F811
+    return _end_tasks(tier) + [
+        Task('wiring_' + b, 'wiring_harness', {'builder': b},
+             bounds='%s::%s executed from MIR against a recording stream stub: the NextStrategy it hands to split_block / '
+                    'binary_connection; GroupBy strategies evaluated on symbolic (key, payload) items with the hash '
+                    'uninterpreted' % (WIRING[b][0], WIRING[b][1]), role='wiring', opts={'covers': ['end']})
+        for b in WIRING]
